@@ -340,6 +340,66 @@ def guard_clauses(src: str) -> str:
     return ast.unparse(tree) + '\n'
 
 
+
+class _LoopContinue(ast.NodeTransformer):
+    """a loop body that ends in `if c: BODY` (no else)  ->  `if not c: continue` BODY"""
+
+    def _do(self, node):
+        self.generic_visit(node)
+        last = node.body[-1] if node.body else None
+        if isinstance(last, ast.If) and not last.orelse and not node.orelse:
+            guard = ast.If(test=ast.UnaryOp(op=ast.Not(), operand=last.test), body=[ast.Continue()], orelse=[])
+            node.body = node.body[:-1] + [ast.copy_location(guard, last)] + last.body
+        return node
+
+    visit_For = _do
+    visit_AsyncFor = _do
+    visit_While = _do
+
+
+def loop_continue(src: str) -> str:
+    tree = _LoopContinue().visit(ast.parse(src))
+    ast.fix_missing_locations(tree)
+    return ast.unparse(tree) + '\n'
+
+
+class _ElseAfterReturn(ast.NodeTransformer):
+    """`if c: ...; return/raise/continue/break` `else: REST`  ->  the if without else, followed by REST"""
+
+    def _block(self, stmts):
+        out = []
+        for st in stmts:
+            for field in ('body', 'orelse', 'finalbody'):
+                if hasattr(st, field) and isinstance(getattr(st, field), list) and not isinstance(
+                        st, (ast.FunctionDef, ast.AsyncFunctionDef, ast.ClassDef)):
+                    setattr(st, field, self._block(getattr(st, field)))
+            if isinstance(st, ast.Try):
+                for h in st.handlers:
+                    h.body = self._block(h.body)
+            if isinstance(st, ast.If) and st.orelse and st.body and isinstance(
+                    st.body[-1], (ast.Return, ast.Raise, ast.Continue, ast.Break)):
+                rest = st.orelse
+                st.orelse = []
+                out.append(st)
+                out.extend(rest)
+            else:
+                out.append(st)
+        return out
+
+    def visit_FunctionDef(self, node):
+        self.generic_visit(node)
+        node.body = self._block(node.body)
+        return node
+
+    visit_AsyncFunctionDef = visit_FunctionDef
+
+
+def else_after_return(src: str) -> str:
+    tree = _ElseAfterReturn().visit(ast.parse(src))
+    ast.fix_missing_locations(tree)
+    return ast.unparse(tree) + '\n'
+
+
 # not in the default set: the path interpreter unrolls a loop once and decides the exit at the loop head, so a loop
 # rewritten as `while True: if not c: break` puts the exit beyond its horizon; the rules that read loop tests answer
 # with an analysis error (exit 2) on such a tree, not with a verdict.  Kept for `twin_sweep.py --transforms while-true`.
@@ -356,4 +416,6 @@ TRANSFORMS = {
     'expand-augassign': expand_augassign,
     'hoist-first-argument': hoist_first_argument,
     'guard-clauses': guard_clauses,
+    'loop-continue': loop_continue,
+    'else-after-return': else_after_return,
 }
